@@ -1,6 +1,6 @@
 """unit recipes. Each module defines UNITS (list of pipeline.Unit)."""
-import importlib, pkgutil, os
-def all_units():
+import importlib, pkgutil, os, json
+def all_units(raw=False):
     out = []
     here = os.path.dirname(__file__)
     for m in sorted(pkgutil.iter_modules([here])):
@@ -8,4 +8,12 @@ def all_units():
         out += getattr(mod, 'UNITS', [])
     names = [u.name for u in out]
     assert len(names) == len(set(names)), "duplicate unit names"
+    if not raw:
+        # a unit is also run under every property that one of its obligations' labels names (tools/label_index.py)
+        try: idx = json.load(open(os.path.join(here, 'label_index.json')))
+        except (OSError, ValueError): idx = {}
+        for u in out:
+            own = getattr(u, '_own_props', None)
+            if own is None: u._own_props = own = list(u.props)
+            u.props = own + [p for p in idx.get(u.name, []) if p not in own]
     return out
